@@ -180,6 +180,14 @@ def poll_thread_startup(ctx):
         raise AnchorMissing('writeInitParams / initialReads / first polls not found in the poll thread', violation='frappy.modulebase.Module.__pollThread:writes, initial reads and first polls present')
     ctx.check(all(cfg.dominates(wi, i) for i in ir + fp), f'{pt.qualname}:configured writes first', pt.node,
               'writeInitParams dominates initialReads and the first polls', 'a read/poll can happen before the configured values were written', pt)
+    mods_param = pt.node.args.args[1].arg if len(pt.node.args.args) > 1 else 'modules'
+    for c in calls_in(pt.node):
+        if call_attr(c) == 'writeInitParams':
+            loop = next((a for a in ancestors(c) if isinstance(a, ast.For)), None)
+            ok = loop is not None and src(loop.iter) == mods_param
+            ctx.check(ok, f'{pt.qualname}:configured writes for every module of the thread', c, f'loop over `{mods_param}` (all modules handed to the thread)',
+                      f'writeInitParams is called in a loop over `{src(loop.iter) if loop is not None else "?"}`, not over all modules of the thread: a module '
+                      'with enablePoll=False, for which the thread was started only because of its configured writes, never gets them written', pt)
     ctx.check(all(cfg.dominates(wi, h) for h in head), f'{pt.qualname}:writes before steady loop', pt.node,
               'writeInitParams dominates the steady loop', 'the steady loop can start before configured values were written', pt)
     # started_callback exactly once: path-sensitive None-ness typestate
